@@ -387,7 +387,7 @@ def run(chk, replay=None):
     for nm in ['sin_cos', 'function', 'func', 'integral', 'derivative_undef', 'integrate_0', 'integrate_0minus']:
         wrap(nm)
 
-    n_cases = 120 if quick else 1500
+    n_cases = 100 if quick else 520
     gen = Gen(rng)
     chk.coverage['rule'] = ('each case = a sum of 1-3 generated raw terms (shapes: constant, polynomial*exp, complex exp, sinh/cosh, sin/cos fast path '
                             'with phase/damping/delay, general products, steps and deltas (derivatives, scaled, delayed) times smooth factors, '
@@ -494,6 +494,13 @@ def run(chk, replay=None):
             chk.count('degenerate', 'lcapy-parse:' + type(ex).__name__)
             return
         del trace[:]
+        if has_undef and not zic and rng.random() < 0.5:
+            # the other value of zero_initial_conditions first: it is part of the cache key
+            chk.count('cache', 'other-zic-first')
+            try:
+                lexpr(txt).laplace(zero_initial_conditions=True)
+            except Exception:   # noqa
+                pass
         try:
             v1 = lcapy_value(e, smp, xs, zic)
         except SlowCase:
@@ -591,6 +598,9 @@ def run(chk, replay=None):
                    {'kind': 'delta', 'order': 1, 'at_origin': True, 'scaled': True, 'scaled_derivative': True})])
     fixed.append([('prod 1 rect 1 1/4', '(1)*rect(t + (1/4))',
                    {'kind': 'fn', 'fn': 'rect', 'scale_is_one': True, 'shift_is_zero': False, 'support_before_zero': True})])
+    for n in (1, 2, 3):
+        for _ in range(2):
+            fixed.append([('dundef 1 %d' % n, '(1)*Derivative(x(t), t, %d)' % n, {'kind': 'undef', 'sub': 'deriv', 'order': n})])
     fixed.append([('prod 1 cos 2 0 step 1 3/2', '(1)*cos(2*t)*Heaviside(t + (3/2))', {'kind': 'sincos', 'delay': 'neg'})])
     import time
     tshape = {}
